@@ -5,6 +5,8 @@ import XmppModel.Model.WaitFor
 import XmppModel.Lemmas.Skeleton
 import XmppModel.Lemmas.ServeLoop
 import XmppModel.Lemmas.WaitFor
+import XmppModel.Model.FormLines
+import XmppModel.Lemmas.FormLines
 import XmppModel.Generated.C09
 /-!
 # C09 — no peer input can panic or wedge the library
@@ -438,5 +440,74 @@ open XmppModel.ScramLoop in
 example : serverFirst [114, 61, 97, 98, 44, 105, 61, 49] = .returns := by decide
 open XmppModel.ScramLoop in
 example : serverFirst [1] = .loops := by decide
+
+/-! ## Round E: the unbounded line-splitting loops of form/form.go (`Submit` of a peer's form)
+
+A form decoded from a peer's reply (muc.GetConfig, a command payload, …) is sent back with
+`Submit`; `(*Data).TokenReader` cuts the peer's instructions and text-multi values into lines
+with `for { idx := strings.IndexAny(…) … }` loops that have no bound of their own.  The model
+(Model/FormLines.lean) keeps that shape (fuel-bounded, `none` = still looping), so "returns
+whatever the reply contains" is a statement that can fail: `C09_form_loop_without_progress_hangs`
+exhibits a loop of the same shape that never returns.  Tie: op `formsubmit` runs the real
+decoder + Submit + encoder under the watchdog on every small form and compares what the
+submission carries with `submitted`. -/
+
+open XmppModel.FormLines in
+/-- The text-multi loop returns for every text (any separator predicate, any lines collected
+so far) within `length + 1` turns, with exactly the pieces between separators. -/
+theorem C09_form_multi_loop_returns {α : Type} (sep : α → Bool) (s : List α) (acc : List (List α)) :
+    multiLoop sep (s.length + 1) s acc = some (acc ++ segments sep s) :=
+  multiLoop_eq sep _ s acc (Nat.lt_succ_self _)
+
+open XmppModel.FormLines in
+/-- More fuel never changes the answer (the bound is not an artefact). -/
+theorem C09_form_multi_loop_fuel_irrelevant {α : Type} (sep : α → Bool) (s : List α) (acc : List (List α))
+    (n : Nat) (h : s.length < n) : multiLoop sep n s acc = multiLoop sep (s.length + 1) s acc := by
+  rw [multiLoop_eq sep n s acc h, multiLoop_eq sep _ s acc (Nat.lt_succ_self _)]
+
+open XmppModel.FormLines in
+/-- The instructions loop returns for every text, with the non-empty pieces. -/
+theorem C09_form_instr_loop_returns {α : Type} (sep : α → Bool) (s : List α) (acc : List (List α)) :
+    instrLoop sep (s.length + 1) s acc = some (acc ++ nonEmpty (segments sep s)) :=
+  instrLoop_eq sep _ s acc (Nat.lt_succ_self _)
+
+open XmppModel.FormLines in
+/-- Hence a submission of ANY form a peer can send is produced: `submitted` is never `none`,
+and it carries the non-empty lines of the instructions and of the joined values. -/
+theorem C09_form_submit_returns (instr values : List Bytes) :
+    submitted instr values = some
+      (nonEmpty (segments isNL (accInstr 10 instr)),
+       if values.isEmpty then [] else nonEmpty (segments isNL (joinNL 10 values))) := by
+  by_cases hv : values.isEmpty = true
+  · simp [submitted, C09_form_instr_loop_returns, hv]
+  · simp [submitted, C09_form_instr_loop_returns, C09_form_multi_loop_returns, hv]
+
+open XmppModel.FormLines in
+/-- No piece contains a separator, their number is the number of separators + 1, and pieces
+plus separators add up to the text: the loop loses and invents nothing. -/
+theorem C09_form_segments_exact {α : Type} (sep : α → Bool) (s : List α) :
+    (∀ l ∈ segments sep s, ∀ b ∈ l, sep b = false) ∧
+    (segments sep s).length = (s.filter sep).length + 1 ∧
+    ((segments sep s).map List.length).sum + (s.filter sep).length = s.length :=
+  ⟨segments_no_sep sep s, segments_length sep s, segments_total sep s⟩
+
+open XmppModel.FormLines in
+/-- The model can express the failure: a loop of the same shape that advances only behind a
+non-empty line never returns on a text that starts with a separator, whatever the fuel. -/
+theorem C09_form_loop_without_progress_hangs {α : Type} (sep : α → Bool) (b : α) (r : List α)
+    (acc : List (List α)) (hb : sep b = true) : ∀ n, stuckLoop sep n (b :: r) acc = none :=
+  fun n => stuckLoop_stuck sep n (b :: r) acc (by simp [indexSep, hb])
+
+-- non-vacuity: "a\n\nb" (an empty <value/> between two values) and CR LF inside a value
+open XmppModel.FormLines in
+example : submitted [] [[97], [], [98, 13, 10, 99]] = some ([], [[97], [98], [99]]) := by decide
+open XmppModel.FormLines in
+example : submitted [[], [97, 10], [], [98]] [] = some ([[97], [98]], []) := by decide
+open XmppModel.FormLines in
+example : multiLoop isNL 5 [97, 10, 10, 98] [] = some [[97], [], [98]] := by decide
+open XmppModel.FormLines in
+example : multiLoop isNL 2 [97, 10, 10, 98] [] = none := by decide  -- too little fuel: still looping
+open XmppModel.FormLines in
+example : stuckLoop isNL 40 [97, 10, 10, 98] [] = none := by decide
 
 end XmppModel.Props.C09
